@@ -688,6 +688,34 @@ Definition evs_hdrs (evs : list event) : list hdr := flat_map ev_hdrs evs.
 
 Definition outstanding (s : sess) : list req := s_queue s ++ map snd (s_flight s).
 
+Lemma step_respond drift tv maxcap from s p now fs r fl :
+  s_res s = None -> take_flight p (s_flight s) = Some (r, fl) ->
+  step drift tv maxcap from s (ERespond p now fs) =
+  match do_request now drift tv from r fs with
+  | DPanic => set_res s RPanic
+  | DErr e => Sess (s_amount s) (s_queue s ++ [r])
+                   (match e with PNotFound => s_idle s ++ [p] | _ => s_idle s end) fl (s_coll s) (s_chunks s) None
+  | DOk h =>
+    match (if 0 <? remaining r h then
+             match prepare_requests maxcap (wrap64 (h_height (last h hdr_nil) + 1)) (remaining r h) (r_amount r) with
+             | PROk (x :: _) => inr [x]
+             | PROk [] | PRPanic => inl RPanic
+             | PRFuel => inl RFuel
+             end
+           else inr []) with
+    | inl bad => set_res s bad
+    | inr rq =>
+      Sess (s_amount s) (s_queue s ++ rq) (s_idle s ++ [p]) fl (s_coll s ++ h) (s_chunks s ++ [h])
+           (if s_amount s <=? N.of_nat (length (s_coll s ++ h))
+            then Some (finish now drift tv from (s_coll s ++ h) (s_chunks s ++ [h])) else None)
+    end
+  end.
+Proof. intros Hres Htf. unfold step. rewrite Hres, Htf. reflexivity. Qed.
+
+Lemma finish_ok now drift tv from coll chunks l :
+  finish now drift tv from coll chunks = ROk l -> l = sort_h coll.
+Proof. unfold finish. destruct (verify_chunk_boundaries _ _ _ _ _); congruence. Qed.
+
 Section inv.
 Variables (drift : Z) (tv : hdr -> hdr -> tvres) (maxcap : N) (from : hdr).
 Variables (start amount : N).
@@ -998,6 +1026,39 @@ Proof.
     + exfalso. exact (do_request_no_panic drift tv now from r fs Hdo).
 Qed.
 
+(** the state after an accepted chunk (for states satisfying the invariant) *)
+Lemma step_accept nows U s p now fs r fl h :
+  Live nows U s -> s_res s = None ->
+  take_flight p (s_flight s) = Some (r, fl) -> do_request now drift tv from r fs = DOk h ->
+  let k := N.of_nat (length h) in
+  let rq := if 0 <? r_amount r - k then [Req (r_origin r + k) (r_amount r - k)] else [] in
+  1 <= k /\ k <= r_amount r /\
+  step drift tv maxcap from s (ERespond p now fs) =
+  Sess (s_amount s) (s_queue s ++ rq) (s_idle s ++ [p]) fl (s_coll s ++ h) (s_chunks s ++ [h])
+       (if s_amount s <=? N.of_nat (length (s_coll s ++ h))
+        then Some (finish now drift tv from (s_coll s ++ h) (s_chunks s ++ [h])) else None).
+Proof.
+  intros HL Hres Htf Hdo k rq.
+  destruct (take_flight_spec _ _ _ _ Htf) as (Hin & _).
+  destruct HL as [_ _ _ H4 _ _ _].
+  assert (Hr : 1 <= r_amount r /\ start <= r_origin r /\ r_origin r + r_amount r <= start + amount).
+  { rewrite Forall_forall in H4. apply H4. unfold outstanding. apply in_or_app. right.
+    apply in_map_iff. exists (p, r). split; [reflexivity | exact Hin]. }
+  destruct (do_request_ok drift tv now from r fs h Hnil Hdo) as (Hne & Hlen & _ & _ & _ & _ & Hheights).
+  fold k in Hlen.
+  assert (Hk1 : 1 <= k) by (subst k; destruct h; [contradiction | cbn [length]; lia]).
+  split; [exact Hk1|]. split; [exact Hlen|].
+  rewrite (step_respond _ _ _ _ _ _ _ _ _ _ Hres Htf), Hdo.
+  assert (Hrem : remaining r h = r_amount r - k) by (unfold remaining; apply sub64_le; exact Hlen).
+  rewrite Hrem.
+  assert (Hlast : h_height (last h hdr_nil) + 1 = r_origin r + k).
+  { rewrite (last_map_height h hdr_nil Hne), Hheights.
+    destruct (length h) as [|n] eqn:Hl; [destruct h; [contradiction | discriminate]|].
+    rewrite seqN_last. subst k. lia. }
+  subst rq. destruct (N.ltb_spec 0 (r_amount r - k)) as [Hpos|Hz]; [|reflexivity].
+  rewrite Hlast, wrap64_small by lia. rewrite prepare_remainder by lia. reflexivity.
+Qed.
+
 Lemma run_inv evs : forall nows U s,
   Inv nows U s -> Inv (evs_nows evs ++ nows) (evs_hdrs evs ++ U) (run drift tv maxcap from s evs).
 Proof.
@@ -1275,33 +1336,7 @@ Proof.
   cbn [takeN]. cbn [length] in Hn. destruct (N.eqb_spec n 0); [lia|]. f_equal. apply IH. lia.
 Qed.
 
-Lemma step_respond drift tv maxcap from s p now fs r fl :
-  s_res s = None -> take_flight p (s_flight s) = Some (r, fl) ->
-  step drift tv maxcap from s (ERespond p now fs) =
-  match do_request now drift tv from r fs with
-  | DPanic => set_res s RPanic
-  | DErr e => Sess (s_amount s) (s_queue s ++ [r])
-                   (match e with PNotFound => s_idle s ++ [p] | _ => s_idle s end) fl (s_coll s) (s_chunks s) None
-  | DOk h =>
-    match (if 0 <? remaining r h then
-             match prepare_requests maxcap (wrap64 (h_height (last h hdr_nil) + 1)) (remaining r h) (r_amount r) with
-             | PROk (x :: _) => inr [x]
-             | PROk [] | PRPanic => inl RPanic
-             | PRFuel => inl RFuel
-             end
-           else inr []) with
-    | inl bad => set_res s bad
-    | inr rq =>
-      Sess (s_amount s) (s_queue s ++ rq) (s_idle s ++ [p]) fl (s_coll s ++ h) (s_chunks s ++ [h])
-           (if s_amount s <=? N.of_nat (length (s_coll s ++ h))
-            then Some (finish now drift tv from (s_coll s ++ h) (s_chunks s ++ [h])) else None)
-    end
-  end.
-Proof. intros Hres Htf. unfold step. rewrite Hres, Htf. reflexivity. Qed.
 
-Lemma finish_ok now drift tv from coll chunks l :
-  finish now drift tv from coll chunks = ROk l -> l = sort_h coll.
-Proof. unfold finish. destruct (verify_chunk_boundaries _ _ _ _ _); congruence. Qed.
 
 Section honest.
 Variables (drift : Z) (tv : hdr -> hdr -> tvres) (maxcap : N) (from : hdr).
@@ -1611,38 +1646,7 @@ Proof.
     + lia.
 Qed.
 
-(** the state after an accepted chunk (for states satisfying the invariant) *)
-Lemma step_accept nows U s p now fs r fl h :
-  Live drift tv from start amount nows U s -> s_res s = None ->
-  take_flight p (s_flight s) = Some (r, fl) -> do_request now drift tv from r fs = DOk h ->
-  let k := N.of_nat (length h) in
-  let rq := if 0 <? r_amount r - k then [Req (r_origin r + k) (r_amount r - k)] else [] in
-  1 <= k /\ k <= r_amount r /\
-  step drift tv maxcap from s (ERespond p now fs) =
-  Sess (s_amount s) (s_queue s ++ rq) (s_idle s ++ [p]) fl (s_coll s ++ h) (s_chunks s ++ [h])
-       (if s_amount s <=? N.of_nat (length (s_coll s ++ h))
-        then Some (finish now drift tv from (s_coll s ++ h) (s_chunks s ++ [h])) else None).
-Proof.
-  intros HL Hres Htf Hdo k rq.
-  destruct (take_flight_spec _ _ _ _ Htf) as (Hin & _).
-  destruct HL as [_ _ _ H4 _ _ _].
-  assert (Hr : 1 <= r_amount r /\ start <= r_origin r /\ r_origin r + r_amount r <= start + amount).
-  { rewrite Forall_forall in H4. apply H4. unfold outstanding. apply in_or_app. right.
-    apply in_map_iff. exists (p, r). split; [reflexivity | exact Hin]. }
-  destruct (do_request_ok drift tv now from r fs h Hnil Hdo) as (Hne & Hlen & _ & _ & _ & _ & Hheights).
-  fold k in Hlen.
-  assert (Hk1 : 1 <= k) by (subst k; destruct h; [contradiction | cbn [length]; lia]).
-  split; [exact Hk1|]. split; [exact Hlen|].
-  rewrite (step_respond _ _ _ _ _ _ _ _ _ _ Hres Htf), Hdo.
-  assert (Hrem : remaining r h = r_amount r - k) by (unfold remaining; apply sub64_le; exact Hlen).
-  rewrite Hrem.
-  assert (Hlast : h_height (last h hdr_nil) + 1 = r_origin r + k).
-  { rewrite (last_map_height h hdr_nil Hne), Hheights.
-    destruct (length h) as [|n] eqn:Hl; [destruct h; [contradiction | discriminate]|].
-    rewrite seqN_last. subst k. lia. }
-  subst rq. destruct (N.ltb_spec 0 (r_amount r - k)) as [Hpos|Hz]; [|reflexivity].
-  rewrite Hlast, wrap64_small by lia. rewrite prepare_remainder by lia. reflexivity.
-Qed.
+
 
 (** C18 progress: an honest non-empty answer from a peer that has the origin shrinks the
     outstanding amount by the number of headers it carried, all of them are collected,
@@ -1663,7 +1667,7 @@ Proof.
   { rewrite Forall_forall in H4. apply H4. unfold outstanding. apply in_or_app. right.
     apply in_map_iff. exists (p, r). split; [reflexivity | exact Hin]. }
   destruct (honest_nonempty_outcome now a r fs rest Hcv ltac:(lia) ltac:(lia) Hatop Hans Hne) as [(_ & Hdo & Hle)|(Hlt & _)]; [|lia].
-  destruct (step_accept nows U s p now fs r fl _ HL Hres Htf Hdo) as (Hk1 & Hk2 & Hstep).
+  destruct (step_accept drift tv maxcap from start amount Hnil Hbound nows U s p now fs r fl _ HL Hres Htf Hdo) as (Hk1 & Hk2 & Hstep).
   subst s'. rewrite Hstep. rewrite map_length, seqN_length in *.
   set (k := N.of_nat (length fs)) in *.
   unfold mu, outstanding. cbn [s_queue s_flight s_coll s_idle].
@@ -1866,6 +1870,173 @@ Proof.
   intros Hok Hw. unfold request_one. cbn [takeN N.eqb]. cbn.
   assert (Ht : takeN (A:=frame) 0 rest = []) by (destruct rest; reflexivity).
   rewrite Ht. cbn. rewrite Hok. destruct want as [w|]; [|reflexivity]. subst w. rewrite N.eqb_refl. reflexivity.
+Qed.
+
+(** ** C18: honest chunks always pass the boundary check *)
+
+Section honest_boundaries.
+Variables (drift : Z) (tv : hdr -> hdr -> tvres) (maxcap : N) (from : hdr).
+Variables (c : N -> hdr) (top : N).
+Hypothesis Hnil : h_nil from = false.
+Hypothesis Hch : forall n, n <= top -> h_height (c n) = n.
+
+Lemma last_height_of_chunk (l : list hdr) o k :
+  l <> [] -> heights l = seqN o k -> h_height (last l hdr_nil) + 1 = o + N.of_nat k.
+Proof.
+  intros Hne Hh. rewrite (last_map_height l hdr_nil Hne). fold (heights l). rewrite Hh.
+  destruct k as [|n]; [destruct l; [contradiction | discriminate]|]. rewrite seqN_last. lia.
+Qed.
+
+Lemma boundaries_honest now :
+  chain_verifies drift tv from c top now ->
+  forall r prev start amount,
+  sortedN (map first_height (prev :: r)) -> Forall chunk_shape (prev :: r) ->
+  (forall x, cnt x (heights (concat (prev :: r))) = ind start amount x) ->
+  Forall (on_chain c top) (concat (prev :: r)) -> h_height from < start ->
+  boundaries now drift tv prev r = BOk.
+Proof.
+  intros Hcv. induction r as [|c' r IH]; intros prev start amount Hs Hf Hc Hon Hfrom; [reflexivity|].
+  destruct (tiling_head prev (c' :: r) start amount Hs Hf Hc) as (Ho & Hk & Hrest).
+  assert (Hs' : sortedN (map first_height (c' :: r))) by apply Hs.
+  pose proof (Forall_inv_tail Hf) as Hf'.
+  destruct (tiling_head c' r _ _ Hs' Hf' Hrest) as (Ho' & Hk' & _).
+  pose proof (Forall_inv Hf) as [Hpne Hph]. pose proof (Forall_inv Hf') as [Hcne Hchh].
+  cbn [boundaries]. destruct prev as [|p0 prev']; [contradiction|]. destruct c' as [|u c'']; [contradiction|].
+  set (prev := p0 :: prev') in *.
+  assert (Hlast : h_height (last prev hdr_nil) + 1 = start + N.of_nat (length prev)).
+  { rewrite <- Ho. apply last_height_of_chunk; assumption. }
+  assert (Hu : h_height u = start + N.of_nat (length prev)) by (cbn [first_height] in Ho'; exact Ho').
+  rewrite Forall_forall in Hon.
+  assert (Hlin : In (last prev hdr_nil) (concat (prev :: (u :: c'') :: r))).
+  { cbn [concat]. apply in_or_app. left. subst prev.
+    clear. revert p0. induction prev' as [|x l IHl]; intros p0; [left; reflexivity|].
+    change (last (p0 :: x :: l) hdr_nil) with (last (x :: l) hdr_nil). right. apply IHl. }
+  assert (Huin : In u (concat (prev :: (u :: c'') :: r))).
+  { cbn [concat]. apply in_or_app. right. left. reflexivity. }
+  destruct (Hon _ Hlin) as [Hl1 Hl2]. destruct (Hon _ Huin) as [Hu1 Hu2].
+  set (n := h_height (last prev hdr_nil)) in *.
+  assert (Hlen1 : (1 <= length prev)%nat) by (subst prev; cbn; lia).
+  destruct (Hcv n ltac:(lia) Hl2) as [_ Hnext].
+  assert (Hun : h_height u = n + 1) by lia.
+  assert (Hv : Verify now drift tv (last prev hdr_nil) u = None).
+  { rewrite Hl1, Hu1, Hun. apply Hnext. lia. }
+  rewrite Hv.
+  apply (IH (u :: c'') (start + N.of_nat (length prev)) (amount - N.of_nat (length prev))); auto.
+  - apply Forall_forall. intros h Hh. apply Hon. cbn [concat]. apply in_or_app. right. exact Hh.
+  - lia.
+Qed.
+
+(** with honest chunks the collector's final step returns the headers *)
+Lemma honest_finish start amount nows U s now :
+  Live drift tv from start amount nows U s -> amount <= N.of_nat (length (s_coll s)) ->
+  Forall (on_chain c top) (s_coll s) -> h_height from < start ->
+  chain_verifies drift tv from c top now ->
+  finish now drift tv from (s_coll s) (s_chunks s) = ROk (sort_h (s_coll s)).
+Proof.
+  intros [_ Hc Hs Hr Hg Hcat Hch'] Hlen Hon Hfrom Hcv.
+  assert (Hz : sum_amounts (outstanding s) = 0) by lia.
+  assert (Hnil' : outstanding s = []).
+  { destruct (outstanding s) as [|r0 l0]; [reflexivity|].
+    pose proof (Forall_inv Hr) as Hr0. cbn in Hr0, Hz. lia. }
+  assert (Hcnt : forall x, cnt x (map h_height (s_coll s)) = ind start amount x).
+  { intros x. specialize (Hc x). rewrite Hnil' in Hc. cbn in Hc. lia. }
+  set (cs := sort_c (s_chunks s)).
+  assert (Hcs_shape : Forall chunk_shape cs).
+  { apply sort_c_Forall. eapply Forall_impl; [|exact Hch']. intros c0 [H _]. exact H. }
+  assert (Hempty : existsb is_nil (s_chunks s) = false).
+  { destruct (existsb is_nil (s_chunks s)) eqn:E; [|reflexivity].
+    apply existsb_exists in E as (c0 & Hin & Hc0). rewrite Forall_forall in Hch'.
+    destruct (Hch' c0 Hin) as [[Hne _] _]. destruct c0; [contradiction | discriminate]. }
+  unfold finish, verify_chunk_boundaries. rewrite Hnil, Hempty. fold cs.
+  destruct cs as [|c0 r] eqn:Ecs; [reflexivity|].
+  rewrite (boundaries_honest now Hcv r c0 start amount); [reflexivity | | exact Hcs_shape | | | exact Hfrom].
+  - rewrite <- Ecs. apply sort_c_sorted.
+  - intros x. rewrite <- Ecs. unfold cs. rewrite sort_c_cnt, Hcat. apply Hcnt.
+  - apply Forall_forall. intros h Hh. rewrite <- Ecs in Hh. apply in_concat_iff in Hh as (c1 & Hc1 & Hh1).
+    apply (proj1 (sort_c_In _ _)) in Hc1. rewrite Forall_forall in Hon. apply Hon. rewrite <- Hcat.
+    apply in_concat_iff. exists c1. split; assumption.
+Qed.
+
+(** no honest run ends with the chain error *)
+Lemma step_no_chain_error start amount nows U s ev :
+  start + amount < two64 -> h_height from < start ->
+  Inv drift tv from start amount nows U s -> CI c top s -> honest_ev c top s ev ->
+  (forall p now fs, ev = ERespond p now fs -> chain_verifies drift tv from c top now) ->
+  s_res s <> Some (RErr ENotChain) ->
+  s_res (step drift tv maxcap from s ev) <> Some (RErr ENotChain).
+Proof.
+  intros Hbound Hfrom HI [Hon _] Hh Hcv Hres0.
+  destruct (s_res s) as [r0|] eqn:Hres.
+  { unfold step. rewrite Hres. rewrite Hres. exact Hres0. }
+  unfold Inv in HI. rewrite Hres in HI.
+  destruct ev as [p r|p now fs| |].
+  - unfold step. rewrite Hres.
+    destruct (remove_peer p (s_idle s)); [destruct (remove_req r (s_queue s))|]; cbn [s_res]; congruence.
+  - destruct (take_flight p (s_flight s)) as [[r fl]|] eqn:Htf.
+    2:{ unfold step. rewrite Hres, Htf. congruence. }
+    unfold honest_ev in Hh. rewrite Htf in Hh. destruct Hh as (a & rest & Ha & Hrest).
+    destruct (do_request now drift tv from r fs) as [e|h|] eqn:Hdo.
+    + rewrite (step_respond _ _ _ _ _ _ _ _ _ _ Hres Htf), Hdo. cbn [s_res]. discriminate.
+    + assert (HL' : Live drift tv from start amount (now :: nows) (frame_hdrs fs ++ U) s).
+      { pose proof (Inv_mono drift tv from start amount nows (now :: nows) U (frame_hdrs fs ++ U) s) as Hm.
+        unfold Inv in Hm. rewrite Hres in Hm. apply Hm; [apply incl_tl, incl_refl | apply incl_appr, incl_refl | exact HI]. }
+      pose proof (accept_live drift tv from start amount Hnil Hbound nows U s p now fs r fl h HL' Htf Hdo) as Hmid.
+      cbv zeta in Hmid.
+      destruct (step_accept drift tv maxcap from start amount Hnil Hbound nows U s p now fs r fl h HI Hres Htf Hdo) as (_ & _ & Hstep).
+      rewrite Hstep. cbn [s_res].
+      destruct (N.leb_spec (s_amount s) (N.of_nat (length (s_coll s ++ h)))) as [Hdone|Hnot]; [|discriminate].
+      destruct (do_request_ok drift tv now from r fs h Hnil Hdo) as (_ & _ & Hincl & _).
+      assert (Hon' : Forall (on_chain c top) (s_coll s ++ h)).
+      { apply Forall_app. split; [exact Hon|]. apply Forall_forall. intros x Hx.
+        assert (Hinx : In x (frame_hdrs (honest_answer c a r))).
+        { rewrite Hrest, frame_hdrs_app. apply in_or_app. left. apply Hincl, Hx. }
+        eapply honest_answer_on_chain; eauto. }
+      pose proof (honest_finish start amount _ _ _ now Hmid) as Hfin. cbn [s_coll s_chunks] in Hfin.
+      rewrite Hfin; [discriminate | | exact Hon' | exact Hfrom | apply (Hcv p now fs eq_refl)].
+      destruct HI as [Hamt _ _ _ _ _ _]. rewrite <- Hamt. exact Hdone.
+    + rewrite (step_respond _ _ _ _ _ _ _ _ _ _ Hres Htf), Hdo. cbn [s_res set_res]. discriminate.
+  - unfold step. rewrite Hres. cbn [s_res set_res]. discriminate.
+  - unfold step. rewrite Hres. cbn [s_res set_res]. discriminate.
+Qed.
+
+Lemma run_no_chain_error start amount evs : forall nows U s,
+  start + amount < two64 -> h_height from < start ->
+  Inv drift tv from start amount nows U s -> CI c top s ->
+  honest_run drift tv maxcap from c top s evs ->
+  (forall p now fs, In (ERespond p now fs) evs -> chain_verifies drift tv from c top now) ->
+  s_res s <> Some (RErr ENotChain) ->
+  s_res (run drift tv maxcap from s evs) <> Some (RErr ENotChain).
+Proof.
+  induction evs as [|ev evs IH]; intros nows U s Hb Hf HI HC Hrun Hcv Hres; [exact Hres|].
+  cbn [run]. destruct Hrun as [Hev Hrun].
+  apply (IH (ev_nows ev ++ nows) (ev_hdrs ev ++ U)); auto.
+  - apply step_inv; assumption.
+  - apply (step_chain drift tv maxcap from c top Hnil Hch); assumption.
+  - intros p now fs Hin. apply (Hcv p now fs). right. exact Hin.
+  - eapply step_no_chain_error; eauto. intros p now fs ->. apply (Hcv p now fs). left. reflexivity.
+Qed.
+
+End honest_boundaries.
+
+(** C18: with honest answers (and a chain that verifies) the call never reports a broken chain *)
+Theorem honest_no_chain_error drift tv maxcap per from to peers (c : N -> hdr) top evs :
+  h_nil from = false -> h_height from + 1 < two64 -> to < two64 -> 1 <= per ->
+  (forall n, n <= top -> h_height (c n) = n) ->
+  honest_run drift tv maxcap from c top (get_range maxcap per from to peers) evs ->
+  (forall p now fs, In (ERespond p now fs) evs -> chain_verifies drift tv from c top now) ->
+  GetRangeByHeight drift tv maxcap per from to peers evs <> Some (RErr ENotChain).
+Proof.
+  intros Hnil Hf Ht Hper Hch Hrun Hcv. unfold GetRangeByHeight.
+  destruct (get_range_fresh maxcap per from to peers) as [Hc0 Hr0].
+  assert (HCI : CI c top (get_range maxcap per from to peers)).
+  { split; [rewrite Hc0; constructor|]. intros l Hl. exfalso. exact (Hr0 l Hl). }
+  destruct (get_range_spec drift tv maxcap per from to peers ltac:(lia) Ht Hper) as [(_ & H)|[(_ & _ & H)|(Ha & _ & H0 & _ & _ & HL0)]].
+  1,2: rewrite (run_done _ _ _ _ _ _ _ H), H; discriminate.
+  rewrite (wrap64_small _ Hf) in *.
+  apply (run_no_chain_error drift tv maxcap from c top Hnil Hch (h_height from + 1) (to - (h_height from + 1)) evs [] []);
+    auto; try lia.
+  - unfold Inv. rewrite H0. exact HL0.
+  - rewrite H0. discriminate.
 Qed.
 
 (** ** the two halves of [result_shape] *)
